@@ -180,6 +180,15 @@ func (wm *Watermark) UpdateEventTime(eventTime time.Time) {
 	wm.sendWatermarkLocked()
 }
 
+// IsFarFuture reports whether an event timestamp lies beyond the far-future
+// guard (now + maxOutOfOrderness + maxFutureSlack), i.e. it is treated as
+// corrupt and ignored for watermark bookkeeping by UpdateEventTime.
+func (wm *Watermark) IsFarFuture(eventTime time.Time) bool {
+	wm.mu.RLock()
+	defer wm.mu.RUnlock()
+	return eventTime.After(time.Now().Add(wm.maxOutOfOrderness + maxFutureSlack))
+}
+
 // GetCurrentWatermark returns the current watermark time
 func (wm *Watermark) GetCurrentWatermark() time.Time {
 	wm.mu.RLock()
